@@ -10,6 +10,38 @@ OPAQUE = {"t": "?"}
 MAXSTEPS = 1200       # TLC evaluates the lock-step check recursively (in worker threads, -Xss1g)
 
 
+def unescape(body):
+    """the text of a Rust Debug string literal (between the quotes) -> list of character codes, or None"""
+    out = []
+    k = 0
+    while k < len(body):
+        ch = body[k]
+        if ch != "\\":
+            out.append(ord(ch))
+            k += 1
+            continue
+        nx = body[k + 1] if k + 1 < len(body) else ""
+        if nx == "u":
+            m = re.match(r"\\u\{([0-9a-fA-F]+)\}", body[k:])
+            if not m:
+                return None
+            out.append(int(m.group(1), 16))
+            k += len(m.group(0))
+            continue
+        table = {"n": 10, "r": 13, "t": 9, "0": 0, "\\": 92, '"': 34, "'": 39}
+        if nx not in table:
+            return None
+        out.append(table[nx])
+        k += 2
+    return out
+
+
+def str_value(codes):
+    if codes is None or len(codes) > 60 or any(c > 255 for c in codes):
+        return OPAQUE
+    return {"t": "$", "v": codes}
+
+
 def lit_value(dbg):
     m = re.match(r"LoadIntoA\(V(Integer|Long)\((-?\d+)\)\)", dbg)
     if m:
@@ -22,7 +54,35 @@ def lit_value(dbg):
         v = int(m.group(2))
         if abs(v) <= 2 ** 24:
             return {"t": "S" if m.group(1) == "Single" else "D", "v": v}
+    m = re.match(r'LoadIntoA\(VString\("(.*)"\)\)$', dbg, re.S)
+    if m:
+        return str_value(unescape(m.group(1)))
     return OPAQUE
+
+
+SIGIL = {"I": "%", "L": "&", "S": "!", "D": "#", "$": "$"}
+TYPED = re.compile(r'bare_name: CaseInsensitiveString\("([^"]*)"\), var_type: (.*)\}\)?$', re.S)
+
+
+def var_name(bare, q):
+    return bare.upper() + SIGIL.get(q, "")
+
+
+def typed_name(dbg):
+    """TypedName { bare_name, var_type } -> (name, q, unk): q '?' for records / arrays / unknown"""
+    m = TYPED.search(dbg)
+    if not m:
+        return None
+    vt = m.group(2)
+    if vt.startswith("BuiltIn("):
+        q = QMAP.get(re.match(r"BuiltIn\((\w+)", vt).group(1), "?")
+        return var_name(m.group(1), q), q, q == "?"
+    if vt.startswith("FixedLengthString"):
+        return var_name(m.group(1), "$"), "?", False
+    if vt.startswith("UserDefined"):
+        return m.group(1).upper(), "?", False
+    # arrays and anything else: the key is not reconstructed; the block may hold names the model does not know
+    return m.group(1).upper() + "()", "?", True
 
 
 def decode(dbg):
@@ -33,20 +93,38 @@ def decode(dbg):
     elif op in ("Cast", "AllocateBuiltIn"):
         m = re.search(r"\((\w+)\)", dbg)
         rec["q"] = QMAP.get(m.group(1), "?") if m else "?"
-        if rec["q"] in ("?", "$"):
+        if rec["q"] == "?":
             rec["op"] = "Unmodelled"
-    elif op == "VarPathName":
+    elif op in ("VarPathName", "StashFunctionReturnValue"):
         m = NAME.search(dbg)
-        if not m or "shared: true" in dbg:
+        if not m:
             rec["op"] = "Unmodelled"
         else:
-            rec["n"] = m.group(1).upper() + "|" + (m.group(2) or "")
-    elif op in ("Jump", "JumpIfFalse"):
+            q = QMAP.get(m.group(2) or "", "?")
+            rec["n"] = var_name(m.group(1), q)
+            rec["q"] = q
+            rec["sh"] = "shared: true" in dbg
+    elif op in ("PushNamed", "IsVariableDefined"):
+        t = typed_name(dbg)
+        if t is None:
+            rec["op"] = "Unmodelled"
+        else:
+            rec["n"], rec["q"], rec["unk"] = t
+    elif op == "PushStaticStack":
+        rec["n"] = re.sub(r"\s+", " ", dbg[len("PushStaticStack("):-1])[:120]
+    elif op in ("Jump", "JumpIfFalse", "GoSub"):
         m = re.search(r"Resolved\((\d+)\)", dbg)
         if m:
             rec["t"] = int(m.group(1))
         else:
             rec["op"] = "Unmodelled"
+    elif op == "Return":
+        m = re.search(r"Resolved\((\d+)\)", dbg)
+        rec["t"] = int(m.group(1)) if m else -1
+    elif op in ("PushRet", "EnqueueToReturnStack"):
+        rec["t"] = int(re.search(r"\((\d+)\)", dbg).group(1))
+    elif op in ("BuiltInFunction", "BuiltInSub"):
+        rec["n"] = re.search(r"\((\w+)", dbg).group(1)
     return rec
 
 
@@ -55,6 +133,8 @@ def value_of(v):
         if v["t"] == "S" and abs(v["v"]) > 2 ** 24:
             return OPAQUE
         return {"t": v["t"], "v": v["v"]}
+    if v.get("t") == "$" and isinstance(v.get("s"), str):
+        return str_value([ord(c) for c in v["s"]])
     return OPAQUE
 
 
@@ -63,16 +143,19 @@ def validate(pid, runs, tag="vm", chunk=400):
     d = out_dir(pid)
     stats = {"programs": 0, "steps_validated": 0, "resynchronisations": 0, "drift": [], "states": 0, "transitions": 0}
     recs = []
+    byid = {}
     for r in runs:
         tr = []
         for e in r["trace"][:MAXSTEPS]:
             if len(e) < 3:
                 continue
             dep = e[1]
-            tr.append({"pc": e[0], "r": [value_of(x) for x in e[2]], "vs": dep[0], "rs": dep[1], "vp": dep[2]})
+            tr.append({"pc": e[0], "r": [value_of(x) for x in e[2]], "vs": dep[0], "rs": dep[1], "vp": dep[2],
+                       "br": dep[3], "ret": dep[4], "gs": dep[5], "cx": dep[6]})
         if not tr:
             continue
-        recs.append({"id": r["id"], "insns": [decode(x[0]) for x in r["insns"]], "trace": tr, "errors": list(r.get("errors") or [])})
+        recs.append({"id": r["id"], "insns": [decode(x[0]) for x in r["insns"]], "trace": tr, "errsteps": [int(x) for x in (r.get("error_steps") or [])]})
+        byid[r["id"]] = {"trace": tr, "dbg": [x[0] for x in r["insns"]]}
     cmd = ""
     for start in range(0, len(recs), chunk):
         path = os.path.join(d, "%s_%d.ndjson" % (tag, start))
@@ -92,7 +175,16 @@ def validate(pid, runs, tag="vm", chunk=400):
                 stats["steps_validated"] += int(w[2])
                 stats["resynchronisations"] += int(w[3])
             elif w[0] == "DRIFT":
-                stats["drift"].append({"id": int(w[1]), "step": int(w[2]), "what": w[3]})
+                dr = {"id": int(w[1]), "step": int(w[2]), "what": " ".join(w[3:]).strip('"')}
+                rr = byid.get(dr["id"])
+                if rr and 0 < dr["step"] <= len(rr["trace"]):
+                    e = rr["trace"][dr["step"] - 1]
+                    dr["pc"] = e["pc"]
+                    dr["registers_recorded"] = e["r"]
+                    if e["pc"] < len(rr["dbg"]):
+                        dr["instruction"] = rr["dbg"][e["pc"]][:160]
+                        dr["previous_instructions"] = [rr["dbg"][x["pc"]][:100] for x in rr["trace"][max(0, dr["step"] - 6):dr["step"] - 1] if x["pc"] < len(rr["dbg"])]
+                stats["drift"].append(dr)
         os.remove(path)
     stats["cmd"] = cmd
     return stats
